@@ -351,7 +351,18 @@ func DiffValue(a, b *V, path string) string {
 		if a.I != b.I {
 			return fmt.Sprintf("%s: %d vs %d", path, a.I, b.I)
 		}
-	case TText, TBlob, TIP4:
+	case TIP4:
+		// an address that is not 4 bytes long is 0.0.0.0 (what the constructor makes of it, see Encode)
+		ip := func(s string) []byte {
+			if b := unhex(s); len(b) == 4 {
+				return b
+			}
+			return []byte{0, 0, 0, 0}
+		}
+		if !bytes.Equal(ip(a.S), ip(b.S)) {
+			return fmt.Sprintf("%s: address %.40s vs %.40s", path, a.S, b.S)
+		}
+	case TText, TBlob:
 		if !bytes.Equal(unhex(a.S), unhex(b.S)) {
 			return fmt.Sprintf("%s: payload %.40s vs %.40s", path, a.S, b.S)
 		}
